@@ -17,7 +17,17 @@ Definition name := text.
    TraceStorage: wire name -> list of values, fixed key set, append-only.  *)
 Definition trace := list (name * list Z).
 
-Definition new_trace (ws : list name) : trace := map (fun w => (w, [])) ws.
+(* TraceStorage.__init__: `{wv.name: [] for wv in wvs}` -- keyed by NAME, so a wires_to_track
+   list that mentions a wire several times still yields one list per wire (first occurrence
+   decides the position) *)
+Fixpoint dedup_from (seen : list name) (ws : list name) : list name :=
+  match ws with
+  | [] => []
+  | w :: r => if existsb (text_eqb w) seen then dedup_from seen r
+              else w :: dedup_from (w :: seen) r
+  end.
+
+Definition new_trace (ws : list name) : trace := map (fun w => (w, [])) (dedup_from [] ws).
 Definition trace_names (tr : trace) : list name := map fst tr.
 
 Fixpoint lookup {A} (l : list (name * A)) (w : name) : option A :=
